@@ -1321,6 +1321,8 @@ def gen_c08(rng: random.Random, tier: str) -> Dict[str, Any]:
         cfg["share_encoders"] = False  # targets of tied encoders are not soft-updated by design; the model would not apply
     if cfg["hp"] == "shared":
         cfg["hp"] = "private"
+    if cfg["algo"] not in A.MULTI:
+        cfg["reward_mode"] = rng.choice(["uniform", "uniform", "large", "integer"])
     ops = []
     for _ in range(rng.randint(1, 4 if tier == "quick" else 8)):
         pre = rng.choice(["none", "none", "clone", "mutate:arch", "mutate:param", "mutate:act", "mutate:rl_hp", "load", "load_checkpoint"])
@@ -1481,6 +1483,36 @@ def _expected_loss(agent, cfg, batch, seed) -> Optional[float]:
             qn = torch.min(agent.critic_target_1(nobs, na), agent.critic_target_2(nobs, na))
             y = r + (1 - d) * agent.gamma * qn
             return float(torch.nn.functional.mse_loss(agent.critic_1(obs, a), y) + torch.nn.functional.mse_loss(agent.critic_2(obs, a), y))
+        if algo == "RainbowDQN":
+            # categorical (C51) double-Q target, written as an explicit loop over atoms in float64: independent of the index arithmetic in _dqn_loss
+            def elementwise(b, gamma):
+                obs = agent.preprocess_observation(b["obs"])
+                nobs = agent.preprocess_observation(b["next_obs"])
+                B = b["reward"].shape[0]
+                r = b["reward"].reshape(B).double()
+                d = b["done"].reshape(B).double()
+                a = b["action"].reshape(B).long()
+                z = agent.support.double()
+                n_atoms = z.numel()
+                v_min, v_max = float(agent.v_min), float(agent.v_max)
+                dz = (v_max - v_min) / (n_atoms - 1)
+                a_star = agent.actor(nobs).argmax(1)
+                p_next = agent.actor_target(nobs, q=False)[range(B), a_star].double()
+                logp = agent.actor(obs, q=False, log=True)[range(B), a].double()
+                m = torch.zeros(B, n_atoms, dtype=torch.float64)
+                for i in range(B):
+                    for j in range(n_atoms):
+                        tz = min(max(float(r[i] + (1.0 - d[i]) * gamma * z[j]), v_min), v_max)
+                        pos = (tz - v_min) / dz
+                        lo, hi = int(np.floor(pos + 1e-9)), int(np.ceil(pos - 1e-9))
+                        lo, hi = max(lo, 0), min(hi, n_atoms - 1)
+                        if lo == hi:
+                            m[i, lo] += p_next[i, j]
+                        else:
+                            m[i, lo] += p_next[i, j] * (hi - pos)
+                            m[i, hi] += p_next[i, j] * (pos - lo)
+                return -(m * logp).sum(1), m.sum(1) - p_next.sum(1)  # (per-sample loss, mass difference to the source distribution)
+            return elementwise
         if algo in ("MADDPG", "MATD3"):
             # centralised critics: every agent's critic sees all observations and all actions; next actions come from the target actors
             states, actions, rewards, next_states, dones = batch
@@ -1502,6 +1534,28 @@ def _expected_loss(agent, cfg, batch, seed) -> Optional[float]:
                     out[aid] = float(torch.nn.functional.mse_loss(agent.critics_1[i](ss, sa), y) + torch.nn.functional.mse_loss(agent.critics_2[i](ss, sa), y))
             return out
     return None
+
+
+def _rainbow_expected(agent, cfg, batch, nb):
+    """(loss, per-sample loss, worst mass error) RainbowDQN.learn should report for this batch, from the networks before the step."""
+    el_fn = _expected_loss(agent, cfg, batch, 0)
+    with torch.no_grad():
+        n_step = nb is not None
+        el = None
+        worst = 0.0
+        if cfg.get("combined_reward") or not n_step:
+            el, m = el_fn(batch, float(agent.gamma))
+            worst = max(worst, float(m.abs().max()))
+        if n_step:
+            el_n, m = el_fn(nb, float(agent.gamma) ** int(agent.n_step))
+            worst = max(worst, float(m.abs().max()))
+            el = el + el_n if cfg.get("combined_reward") else el_n
+        if cfg.get("per"):
+            wts = batch["weights"].reshape(-1).double()
+            loss = float((el * wts).mean())
+        else:
+            loss = float(el.mean())
+    return loss, el, worst
 
 
 def run_c08(ctx: kernel.Ctx, case: Dict[str, Any]) -> None:
@@ -1549,6 +1603,7 @@ def run_c08(ctx: kernel.Ctx, case: Dict[str, Any]) -> None:
             want_loss = None
             if algo in ("DQN", "CQN", "DDPG", "TD3", "MADDPG", "MATD3"):
                 want_loss = _expected_loss(ag, cfg, batch, s)
+            rb_want = _rainbow_expected(ag, cfg, batch, nb) if algo == "RainbowDQN" else None
             seed_all(s)
             if algo in ("DDPG", "TD3"):
                 out = ag.learn(batch, policy_noise=0.0)
@@ -1562,6 +1617,20 @@ def run_c08(ctx: kernel.Ctx, case: Dict[str, Any]) -> None:
             n_learn += 1
             ctx.log("subject", "learn", {"j": j})
             # (2) loss value
+            if rb_want is not None:
+                want, want_el, mass_err = rb_want
+                ctx.probe("rainbow_loss_recomputed")
+                if mass_err > 1e-6:
+                    ctx.report("C08/loss_value", f"harness: reference projection lost mass ({mass_err})", **w.loc)
+                if abs(float(out[0]) - want) > 2e-4 * max(1.0, abs(want)):
+                    ctx.report("C08/loss_value", f"op {oi} step {j}: RainbowDQN.learn(per={bool(cfg.get('per'))}, n_step batch={nb is not None}, combined={bool(cfg.get('combined_reward'))}) "
+                                                 f"returned loss {float(out[0])!r}; the categorical cross-entropy against the projected target r + gamma^n (1-done) z "
+                                                 f"{'weighted per sample by the importance weights ' if cfg.get('per') else ''}is {want!r}", variant="per" if cfg.get("per") else "uniform", **w.loc)
+                if cfg.get("per") and out[2] is not None:
+                    got_p = np.asarray(out[2], dtype=np.float64).reshape(-1)
+                    want_p = want_el.numpy() + float(ag.prior_eps)
+                    if got_p.shape != want_p.shape or np.abs(got_p - want_p).max() > 2e-4 * max(1.0, float(np.abs(want_p).max())):
+                        ctx.report("C08/new_priorities", f"op {oi} step {j}: new priorities {got_p.tolist()} are not the per-sample losses + prior_eps {want_p.tolist()}", **w.loc)
             if isinstance(want_loss, dict):
                 ctx.probe("ma_critic_loss_recomputed")
                 for aid, wl in want_loss.items():
@@ -1657,6 +1726,9 @@ def gen_c19(rng: random.Random, tier: str) -> Dict[str, Any]:
             ops.append({"op": "clone", "seed": s})
         else:
             ops.append({"op": "save_restore", "path": rng.choice(["load", "load_checkpoint"]), "seed": s})
+    # evaluation between decisions, as every generation of train_bandits does (test() leaves the agent in evaluation mode)
+    for _ in range(rng.choice([0, 1, 1, 2])):
+        ops.insert(rng.randrange(len(ops) + 1), {"op": rng.choice(["evaluate", "evaluate", "evaluate", "train_mode"]), "seed": rng.getrandbits(31)})
     return {"engine": "world", "prop": "C19", "cfg": cfg, "cfg_seed": rng.getrandbits(31), "ops": ops}
 
 
@@ -1751,6 +1823,23 @@ def run_c19(ctx: kernel.Ctx, case: Dict[str, Any]) -> None:
                 data = w.save_bytes(ag)
                 ag = restore(w, ag, data, op["path"], case)
                 ctx.fault("crash_restore")
+            elif k == "evaluate":
+                obs0, _ = A.probe_inputs(cfg, op["seed"])
+                if isinstance(obs0, np.ndarray):
+                    class _Env:  # two-step scripted bandit environment for agent.test()
+                        def reset(self_):
+                            return obs0
+
+                        def step(self_, action):
+                            return obs0, 1.0
+                    seed_all(op["seed"])
+                    ag.test(_Env(), max_steps=2, loop=1)
+                    ag.fitness.pop()
+                else:
+                    ag.set_training_mode(False)  # test() only takes array contexts; its lasting effect is the evaluation mode
+                ctx.probe("decisions_after_evaluation_possible")
+            elif k == "train_mode":
+                ag.set_training_mode(True)
             ctx.log("bandit", k, {"mut": str(getattr(ag, "mut", None))})
             if not check_shape(ag, f"op {oi} {k}"):
                 break
